@@ -281,6 +281,27 @@ def run_cases(ex: ProcessPoolExecutor, cases: T.List[T.Dict[str, T.Any]], dom: T
     return out
 
 
+
+def verdict_lines(res: T.Any) -> T.Tuple[T.List[T.Dict[str, T.Any]], int]:
+    """Verdicts printed by the trace spec and the number of verdict-looking lines that did not parse
+    (lines of different workers can interleave)."""
+    good, broken = [], 0
+    for line in res.stdout.splitlines():
+        line = line.strip()
+        if line.startswith('"{') or line.startswith('"\\"'):
+            try:
+                v = json.loads(json.loads(line))
+                if isinstance(v, dict) and 'clause' in v and 'id' in v:
+                    good.append(v)
+                    continue
+            except Exception:
+                pass
+            broken += 1
+        elif '\\"clause\\"' in line:
+            broken += 1
+    return good, broken
+
+
 # ---------------------------------------------------------------------------
 # judging with TLC
 
@@ -347,15 +368,17 @@ def judge(chk: Check, cases: T.List[T.Dict[str, T.Any]], dom: T.List[str], label
     with scratch('c19-') as d:
         tf = d / 'cases.json'
         tf.write_text(json.dumps({'dom': [cp(s) for s in dom], 'cases': live}))
-        res = run_tlc(FAM, 'TraceVersion', env={'TRACE_FILE': str(tf)}, timeout=3600, heap='12g')
-        bad = res.json_lines()
+        res = run_tlc(FAM, 'TraceVersion', env={'TRACE_FILE': str(tf)}, timeout=3600)
+        bad, broken = verdict_lines(res)
         if not res.clean:
             raise MachineryError('TraceVersion did not complete cleanly:\n' + res.stdout[-2000:])
         if res.distinct != 2 * len(live):
             raise MachineryError(f'TraceVersion judged {res.distinct // 2} of {len(live)} cases')
-        if bad:
-            res1 = run_tlc(FAM, 'TraceVersion', env={'TRACE_FILE': str(tf)}, timeout=3600, workers=1, heap='12g')
-            bad = res1.json_lines()
+        if broken:      # interleaved output: judge again single-threaded
+            res1 = run_tlc(FAM, 'TraceVersion', env={'TRACE_FILE': str(tf)}, timeout=3600, workers=1)
+            bad, broken = verdict_lines(res1)
+            if broken:
+                raise MachineryError('unreadable verdict lines from TraceVersion')
     chk.add_tlc(f'TraceVersion[{label}]', res, model=False)
     chk.traces += len(cases)
     for v in bad:
@@ -573,16 +596,16 @@ def main(chk: Check) -> None:
     # ---- 1. model checking
     alph = 'Small' if quick else 'Full'
     res = run_tlc(FAM, 'VersionOrder_MC', cfg_text=mc_cfg(ORDER_INV, f' MaxLen = 3\n Numbers <- Numbers{alph}\n Words <- Words{alph}\n', 'EmitDomain'),
-                  collect=['domain.json'], timeout=3000, allow_violation=False, heap='8g')
+                  collect=['domain.json'], timeout=3000, allow_violation=False)
     chk.add_tlc(f'VersionOrder_MC[MaxLen=3,{alph}]', res)
     domain = json.loads(res.collected['domain.json'])
     res = run_tlc(FAM, 'VersionTok_MC', cfg_text=mc_cfg(TOK_INV, f' MaxStr = {5 if quick else 6}\n Chars = {{48, 49, 57, 97, 66, 46, 45}}\n'),
-                  timeout=3000, allow_violation=False, heap='8g')
+                  timeout=3000, allow_violation=False)
     chk.add_tlc('VersionTok_MC', res)
     res = run_tlc(FAM, 'VersionRange_MC',
                   cfg_text=mc_cfg(RANGE_INV, f' MaxLen = 2\n Numbers <- Numbers{alph}\n Words <- Words{alph}\n Ends <- Ends{'Tiny' if quick else 'Full'}\n'
                                   f' MaxChecks = 2\n', 'EmitRanges'),
-                  collect=['ranges.json'], timeout=3000, allow_violation=False, heap='8g')
+                  collect=['ranges.json'], timeout=3000, allow_violation=False)
     chk.add_tlc(f'VersionRange_MC[{alph}]', res)
     rspace = json.loads(res.collected['ranges.json'])
     chk.extra['model_domain_versions'] = len(domain)
